@@ -24,6 +24,41 @@ CHECKS = {
         "ref": "DESIGN.md section 3 C04", "note": _TB + " The numerical kernels are abstract in the cache model (a function of mode and key); their determinism is what the history harness measures.",
         "technique": "Coq proof (invariant by induction over operation sequences) + history-vs-fresh differential harness",
     },
+    "C05": {
+        "text": "Coq theorems (Coquelicot is_derive): the closed forms stored by LocalLinearization are the partial derivatives of horizontal distance, bearing (both charts of the angle), slope distance and zenith angle, and the stored K cos s / K sin s equal c*dx/d^2, c*dy/d^2 whenever (s,d) satisfies the contract of bearing_distance; the two while loops reduce an angular right-hand side into [-200,200] gon modulo 400 gon for every magnitude (the half-open claim is refuted at exactly -200 gon). Correspondence: every row (rhs, index roles, coefficients) of LocalNetwork::project_equations on generated networks with all 13 observation types, built twice, compared inside coqc with the binary64 transliteration LinRun.v; index assignment checked to be a bijection in both builds.",
+        "ref": "DESIGN.md section 3 C05", "note": _TB + " Transcendental functions of the float model are FloatFns.v (agreement with libm is what the correspondence measures); the link atan2 <-> (d cos s, d sin s) is the stated contract of bearing_distance, checked numerically under C18.",
+        "technique": "Coq proof (Coquelicot derivatives, induction on loop fuel) + row-by-row model/implementation correspondence in vm_compute",
+    },
+    "C06": {
+        "text": "Coq theorems: with a zero right-hand side (what C05 gives at the true coordinates) the zero correction is a minimiser, every minimiser has zero residuals and A x = 0, and a determined network returns exactly zero. End-to-end: error-free generated 1D/2D/3D networks with approximate coordinates exact / perturbed / omitted / heights omitted, with and without instrument heights, free-station terrain cases, all algorithms: adjusted = truth, residuals 0, nothing dropped, monotone under added observations.",
+        "ref": "DESIGN.md section 3 C06", "note": _TB + " Convergence of the Gauss-Newton iteration and completeness of the approximate-coordinate heuristics are not proved (partial): they are what the end-to-end relation samples.",
+        "technique": "Coq proof (fixed point of linearise-solve-update at the truth) + end-to-end predicted relation on generated consistent networks",
+    },
+    "C07": {
+        "text": "Coq theorems: orthogonal row transformations (reordering), invertible column transformations (renaming / reordering / mirroring unknowns) and consistent rescaling of observation units leave the normal equations' solutions and v'Pv unchanged or map them as prescribed. End-to-end: 9 re-expressions (translation to 5e6 m, circle zero incl. 0/200/400 gon, permutations, renaming incl. numeric/string/non-ASCII ids, degrees, swapped distance ends, mirrored axes, right-handed angles, axis naming) of generated noisy networks give the same adjustment.",
+        "ref": "DESIGN.md section 3 C07", "note": _TB + " Parser, PointID ordering and approximate coordinates are covered by the end-to-end relation only.",
+        "technique": "Coq proof (equivariance theorems) + metamorphic end-to-end correspondence",
+    },
+    "C08": {
+        "text": "Coq theorems: any two regularised solutions have the same A x, residuals and v'Pv and differ by a null-space element; orthogonality to the null space in the selected inner product gives minimal constrained corrections; A T Q0 T' A' = A Q0 A' when A T = A. Correspondence: singular problems with random resolving subsets on the four solvers against the exact reference; generated free networks (defect 1..4, with/without distances) under pairs of admissible constraint sets: identical residuals, v'Pv, dof, adjusted-observation stdevs, inter-point distances, and corrections orthogonal to translations/rotation/scale.",
+        "ref": "DESIGN.md section 3 C08", "note": _TB + " Equality of nonlinear distances/angles between adjusted points holds to second order of the corrections (stated); the check uses 2e-6 m.",
+        "technique": "Coq proof (datum invariance) + solver-level and end-to-end correspondence",
+    },
+    "C09": {
+        "text": "Coq theorems: scaling all weights (sigma-apr) keeps the minimisers and scales v'Pv; residual cofactors I - A Q A' are the complementary projector with diagonal in [0,1]; the error-ellipse semi-axes are the eigenvalues of the 2x2 block and the bearing from atan2(2c, a-b)/2 is an eigenvector of the larger one. End-to-end: every numeric field of the XML (dof, m0', confidence scale, chi-square interval and verdict, ellipses from <cov-mat>, per-observation stdev / qrr / standardised residual from f, v, input sigma, m0; redundancy sum) recomputed, for random conf-pr, both sigma-act, dof 0..; sigma-apr metamorphic relation.",
+        "ref": "DESIGN.md section 3 C09", "note": _TB + " sigma_L of correlated clusters is what the code computes (the source itself doubts it); per-observation relations are checked for uncorrelated clusters.",
+        "technique": "Coq proof (field algebra of the statistics) + end-to-end recomputation of every reported field",
+    },
+    "C17": {
+        "text": "Coq theorems (Reals): Student N=1,2 and chi-square n=1,2 closed forms are the exact quantiles, Normal/Student are exactly antisymmetric in the probability, the N=2 closed form is monotone. Per run: kernel-checked Interval certificates on the implementation's own returned doubles (|integral of the density - (1/2 - alpha)| <= eps) for Normal and Student; binary64 transliteration StatRun.v compared with statan.cpp inside coqc; accuracy 1e-6 / 5e-4 / 5e-3, monotonicity, finiteness down to 1e-12 and the inverse relation evaluated on dense grids against independent reference distributions.",
+        "ref": "DESIGN.md section 3 C17", "note": _TB + " The universal accuracy of the rational / Hill / Wilson-Hilferty approximations is not proved (partial): certified pointwise only. Interval relies on the stdlib real axioms and the primitive float/int specifications.",
+        "technique": "Coq proof (closed forms) + kernel-checked interval certificates per sample + model correspondence",
+    },
+    "C18": {
+        "text": "Coq theorems: bearing antisymmetry and consistency with the coordinate differences; geodetic -> Cartesian lies on the ellipsoid and the height is recovered exactly from the true latitude; sexagesimal fields from integer decomposition are in range; the pinned integer recogniser accepted a bare sign (refuted; fixed). Correspondence: IsFloat / IsInteger exhaustively over a 9-character alphabet against the Coq recognisers inside coqc; round trips on every ellipsoid (poles, antimeridian, -10 km .. 2e7 m), gon2deg/deg2gon/dms2rad/rad2dms field ranges and round trips, bearing_distance in all quadrants.",
+        "ref": "DESIGN.md section 3 C18", "note": _TB + " The size of the Bowring truncation error is sampled, not proved (partial).",
+        "technique": "Coq proof + exhaustive recogniser correspondence in vm_compute + round-trip oracles on the rebuilt functions",
+    },
     "C12": {
         "text": "Coq theorems: str2xml's output is decoded back to the input by standard XML entity decoding for every byte string (hence no raw < or &), and is injective; correspondence K: Strings.str2xml vs GNU_gama::str2xml exhaustively on short strings over an alphabet with all XML specials plus random hostile strings, compared inside coqc",
         "ref": "DESIGN.md section 3 C12",
